@@ -184,3 +184,106 @@ pub(crate) fn cleaner_dropped_from_inside_clean() {
     drop(a1);
     kani::assert(state(|s| sp::snap(s)).bytes == 0, "Cleaner::drop::post::map_released");
 }
+
+// ------------------------------------------------------------------------------------------------
+// C07: a cleaning action panics (A-UNWIND: the action sets the emulated-unwinding flag and returns; the H4
+// hook after `drop_in_place` in Cc::drop / after `drop_inner` in deallocate_list leaves every crate frame by
+// `return`, which runs exactly the drop guards the real unwind runs).  Inside `Cleanable::clean` the action
+// is the last thing the function does, so return and unwind coincide without a hook.
+// ------------------------------------------------------------------------------------------------
+/// What the caller of the API sees after catching the panic of a cleaning action (C07 statement).
+fn after_caught_action_panic() {
+    let sn = state(|s| sp::snap(s));
+    kani::assert(!sn.collecting && !sn.finalizing && !sn.dropping && !state(|s| s.is_tracing()), "C07::cleaning_action_panic::collector_idle_and_is_tracing_false_after_the_caught_panic");
+    crate::collect_cycles();
+    let sn1 = state(|s| sp::snap(s));
+    kani::assert(sn1.execs == sn.execs + 1, "C07::cleaning_action_panic::a_later_collection_can_start");
+    kani::assert(!sn1.collecting && !sn1.finalizing && !sn1.dropping, "C07::cleaning_action_panic::collector_idle_after_the_later_collection");
+    let fresh = Cc::new(Leaf(7));
+    #[cfg(feature = "finalization")]
+    kani::assert(!fresh.already_finalized(), "C07::cleaning_action_panic::new_objects_are_not_marked_finalized");
+    match Cc::try_unwrap(fresh) {
+        Ok(v) => { kani::assert(v.0 == 7, "C07::cleaning_action_panic::try_unwrap_of_a_fresh_unique_pointer_succeeds"); core::mem::forget(v); }
+        Err(e) => { kani::assert(false, "C07::cleaning_action_panic::try_unwrap_of_a_fresh_unique_pointer_succeeds"); core::mem::forget(e); }
+    }
+}
+
+//@ C07 C10 | bounded: one owner released by reference counting, 2 actions, the first one panics (emulated unwinding) | deciding | feat=full | fn=CleaningAction::drop,Cc::drop,Cleanable::clean,collect_cycles | timeout=1500
+#[kani::proof]
+#[kani::unwind(12)]
+pub(crate) fn cleaning_action_panics_when_owner_released_by_count() {
+    setup();
+    let o = Cc::new(Owner { me: core::cell::RefCell::new(None), cleaner: Cleaner::new() });
+    let a0 = o.cleaner.register(|| unsafe {
+        RUNS[0] += 1;
+        crate::verif::ghost::start_panic();
+    });
+    normalise(&o.cleaner, &a0);
+    let a1 = o.cleaner.register(|| unsafe { RUNS[1] += 1 });
+    drop(o);
+    kani::assert(crate::verif::ghost::catch(), "C07::cleaning_action_panic::propagates_to_the_caller_of_the_drop");
+    kani::assert(runs()[0] == 1 && runs()[1] <= 1, "CleaningAction::unwind::no_action_runs_twice");
+    after_caught_action_panic();
+    a0.clean();
+    a1.clean();
+    kani::assert(runs()[0] == 1 && runs()[1] <= 1, "Cleanable::clean::unwind::no_action_runs_twice_after_the_caught_panic");
+    drop(a0);
+    drop(a1);
+}
+
+//@ C07 C10 | bounded: one self-cycle owner reclaimed by the collector, 2 actions, the first one panics (emulated unwinding) | deciding | feat=full | fn=CleaningAction::drop,Cc::drop,deallocate_list,collect,collect_cycles | timeout=1500
+#[kani::proof]
+#[kani::unwind(12)]
+pub(crate) fn cleaning_action_panics_when_owner_reclaimed_as_cycle() {
+    setup();
+    let p = Cc::new(Owner { me: core::cell::RefCell::new(None), cleaner: Cleaner::new() });
+    match p.me.try_borrow_mut() {
+        Ok(mut b) => *b = Some(p.clone()),
+        Err(_) => kani::assume(false),
+    }
+    let a0 = p.cleaner.register(|| unsafe {
+        RUNS[0] += 1;
+        crate::verif::ghost::start_panic();
+    });
+    normalise(&p.cleaner, &a0);
+    let a1 = p.cleaner.register(|| unsafe { RUNS[1] += 1 });
+    drop(p);
+    kani::assert(runs()[0] == 0 && runs()[1] == 0, "Cleaner::register::post::does_not_run_the_action");
+    crate::collect_cycles();
+    if !crate::verif::ghost::unwinding() {
+        // with finalization the first pass only finalizes; the second one runs the destructors
+        crate::collect_cycles();
+    }
+    kani::assert(crate::verif::ghost::catch(), "C07::cleaning_action_panic::propagates_to_the_caller_of_collect_cycles");
+    kani::assert(runs()[0] == 1 && runs()[1] <= 1, "CleaningAction::unwind::no_action_runs_twice");
+    after_caught_action_panic();
+    a0.clean();
+    a1.clean();
+    kani::assert(runs()[0] == 1 && runs()[1] <= 1, "Cleanable::clean::unwind::no_action_runs_twice_after_the_caught_panic");
+    drop(a0);
+    drop(a1);
+}
+
+//@ C07 C10 | bounded: one Cleaner, 2 actions, the action run by clean() panics (return == unwind: it is the last effect of clean) | deciding | feat=full | fn=Cleanable::clean,CleaningAction::drop | timeout=1500
+#[kani::proof]
+#[kani::unwind(12)]
+pub(crate) fn cleaning_action_panics_inside_clean() {
+    setup();
+    let c = Cleaner::new();
+    let a0 = c.register(|| unsafe {
+        RUNS[0] += 1;
+        crate::verif::ghost::start_panic();
+    });
+    normalise(&c, &a0);
+    let a1 = c.register(|| unsafe { RUNS[1] += 1 });
+    a0.clean();
+    kani::assert(crate::verif::ghost::catch(), "C07::cleaning_action_panic::propagates_to_the_caller_of_clean");
+    kani::assert(runs()[0] == 1 && runs()[1] == 0, "Cleanable::clean::post::runs_exactly_its_action_once");
+    after_caught_action_panic();
+    a0.clean();
+    kani::assert(runs()[0] == 1 && runs()[1] == 0, "Cleanable::clean::unwind::second_clean_is_a_noop_after_the_caught_panic");
+    drop(c);
+    kani::assert(runs()[0] == 1 && runs()[1] == 1, "Cleaner::drop::post::every_pending_action_ran_exactly_once");
+    drop(a0);
+    drop(a1);
+}
